@@ -1041,6 +1041,10 @@ inline bool Transport::setReadMode(SessionId sid, ReadMode mode)
   ReadMode oldMode = ReadMode::Async;
   {
     std::lock_guard<std::mutex> lk(_impl->syncMutex);
+    if (_impl->shuttingDown)
+    {
+      return false; // entry fence (INV-8): no read-mode switch once teardown has begun
+    }
     auto it = _impl->readModes.find(sid);
     if (it != _impl->readModes.end())
     {
